@@ -8,7 +8,7 @@ from collections import deque
 
 import networkx as nx
 
-from pgmpy.base import DAG
+from pgmpy.base import DAG, UndirectedGraph
 from pgmpy.models import BayesianNetwork
 from pgmpy.utils.sets import _powerset, _variable_or_iterable_to_set
 
@@ -121,6 +121,13 @@ def bn_self_loop_rejected():
         return "accepted"
     except ValueError:
         return "rejected"
+
+
+def ug_has_path():
+    g = UndirectedGraph()
+    g.add_nodes_from(["a", "b", "c", "d"])
+    g.add_edges_from([("a", "b"), ("b", "c")])
+    return (nx.has_path(g, "c", "a"), nx.has_path(g, "a", "d"), nx.has_path(g, "d", "d"))
 
 
 # ---- itertools / helpers
